@@ -240,6 +240,9 @@ func cmdCheck(args []string) int {
 		}
 		if fr.Ctx != nil {
 			for k, v := range fr.Ctx.notes {
+				if notes[k] == 0 && strings.Contains(k, " dropped: ") {
+					fmt.Printf("NOTE: %s\n", k)
+				}
 				notes[k] += v
 			}
 			for k := range fr.Ctx.assumed {
@@ -586,11 +589,8 @@ func cmdCheck(args []string) int {
 			fmt.Printf("UNDECIDED finding=%s reason=demo file missing: %v\n", id, err)
 			continue
 		}
-		os.MkdirAll(filepath.Join(*verif, "bounded"), 0o755)
-		tmpName := "zz_demo_" + sanitize(id) + "_test.go"
-		os.WriteFile(filepath.Join(*verif, "bounded", tmpName), src, 0o644)
-		ok, out, _ := runBounded(BoundedCheck{Name: id, Package: kf.DemoPackage, Test: tmpName, Run: "^" + kf.DemoRun + "$"}, *repo, *verif, *tier)
-		os.Remove(filepath.Join(*verif, "bounded", tmpName))
+		_ = src
+		ok, out, _ := runBounded(BoundedCheck{Name: id, Package: kf.DemoPackage, Test: filepath.Join("..", "demos", kf.DemoFile), Run: "^" + kf.DemoRun + "$"}, *repo, *verif, *tier)
 		if ok {
 			fmt.Printf("NOTE: known finding %s no longer reproduces (demo %s passes) — RESOLVED?\n", id, kf.DemoRun)
 			continue
